@@ -64,6 +64,13 @@ theorem no_ub {cap : Nat} (hcap : cap < HALF) (ops : List Op) (hok : ∀ op ∈ 
     (run (empty cap) ops).ub = false :=
   (inv_run hcap ops hok).wf.base.noub
 
+/-- The lists that stand for sets in the model never hold duplicates: every asset's reference set and
+    the key set of the model table (together with `Base.sets_nodup` for the per-model asset sets), so
+    the model state is a faithful image of the `std::set` / `unordered_map` state.  No precondition. -/
+theorem rep_run (cap : Nat) (ops : List Op) :
+    (∀ a ∈ (run (empty cap) ops).assets, a.refs.Nodup) ∧ ((run (empty cap) ops).models.map (·.1)).Nodup :=
+  ⟨(rep_run' ops _ (rep_empty cap)).refs_nodup, (rep_run' ops _ (rep_empty cap)).keys_nodup⟩
+
 /-! ### lookups -/
 
 /-- A lookup hits exactly when the asset is cached and the resource is unmodified (its timestamp
